@@ -55,9 +55,8 @@ def classify(relpath: str, kind: str, size: int, *, include_meson: bool = False,
         if d in VCS_DIRS:
             return EXCLUDED, "vcs-directory"
         if d in ("LICENSES", ".reuse"):
-            if depth == 0:
-                return EXCLUDED, "licenses-or-reuse-directory"
-            return UNSPEC, "nested-LICENSES-or-.reuse"
+            # the statement excludes files "inside LICENSES/, .reuse/" without saying "of the root": at any depth
+            return EXCLUDED, "licenses-or-reuse-directory" if depth == 0 else "nested-LICENSES-or-.reuse"
     for depth, d in enumerate(dirs):
         # a directory whose parent is called 'subprojects' is a Meson subproject
         if d == "subprojects" and depth + 1 < len(dirs):
@@ -87,7 +86,7 @@ def _selftest():
     assert c("x.license") == EXCLUDED and c("a.spdx") == EXCLUDED and c("a.spdx.json") == EXCLUDED
     assert c("a.spdxx") == COVERED and c("a.spdx_json") == COVERED and c("a.spdx.yml") == EXCLUDED and c("a.spdx.txt") == COVERED
     assert c("REUSE.toml") == EXCLUDED and c("d/REUSE.toml") == EXCLUDED and c("REUSE.tomlx") == COVERED
-    assert c("LICENSES/MIT.txt") == EXCLUDED and c(".reuse/dep5") == EXCLUDED and c("d/LICENSES/x") == UNSPEC
+    assert c("LICENSES/MIT.txt") == EXCLUDED and c(".reuse/dep5") == EXCLUDED and c("d/LICENSES/x") == EXCLUDED
     assert c(".git/config") == EXCLUDED and c("d/.hg/x") == EXCLUDED and c(".gitignore") == COVERED
     assert c("a", s=0) == EXCLUDED and c("a", k="symlink") == EXCLUDED
     assert c("subprojects/x/a.c") == EXCLUDED and c("subprojects/x/a.c", include_meson=True) == COVERED
